@@ -1,6 +1,7 @@
 package main
 
 import (
+	"strconv"
 	"encoding/json"
 	"math/big"
 	"flag"
@@ -178,6 +179,51 @@ func (e *Engine) runInits(l *Loaded) (*State, error) {
 	if err != nil {
 		return nil, err
 	}
+	// heap objects that package-level variables point to after initialisation (a slice built with make/append in
+	// a var initialiser, a table allocated in init) are shared state exactly like the variables themselves
+	{
+		seen := map[*Object]bool{}
+		var mark func(v Value)
+		var visit func(o *Object)
+		visit = func(o *Object) {
+			if o == nil || seen[o] {
+				return
+			}
+			seen[o] = true
+			if o.Kind == ObjLocal {
+				o.Kind = ObjGlobal
+				if o.Name == "" || !strings.Contains(o.Name, "package-level") {
+					o.Name = o.Name + " (heap object reachable from a package-level variable)"
+				}
+			}
+			for _, c := range base.cells(o) {
+				mark(c)
+			}
+		}
+		mark = func(v Value) {
+			switch x := v.(type) {
+			case *Ptr:
+				for _, a := range x.Alts {
+					visit(a.Obj)
+				}
+			case *SliceV:
+				if x.P != nil {
+					for _, a := range x.P.Alts {
+						visit(a.Obj)
+					}
+				}
+			case *Iface:
+				mark(x.Val)
+			case Tuple:
+				for _, y := range x {
+					mark(y)
+				}
+			}
+		}
+		for _, o := range e.globals {
+			visit(o)
+		}
+	}
 	if len(e.H.obs) > 0 {
 		return nil, fmt.Errorf("init produced %d obligations (first: %s %s)", len(e.H.obs), e.H.obs[0].Msg, e.H.obs[0].Pos)
 	}
@@ -334,14 +380,21 @@ func solveAll(e *Engine, obs []*Obligation, tier int, timeout time.Duration) {
 	var wg sync.WaitGroup
 	// every job runs a portfolio of 3-8 solver processes: 8 concurrent jobs keep the 16 cores busy without
 	// starving the long obligations into their timeout
-	sem := make(chan struct{}, 8)
+	njobs := 32
+	if v, err := strconv.Atoi(os.Getenv("VERIF_JOBS")); err == nil && v > 0 {
+		njobs = v
+	}
+	sem := make(chan struct{}, njobs)
 	var mu sync.Mutex
 	// queries must be rendered sequentially (the store is not thread-safe)
+	// the queries of a job are rendered when the job starts (under renderMu: the store is not thread-safe), so
+	// that only the queries of the running jobs are held in memory
 	type job struct {
-		ob *Obligation
-		as []attempt
+		ob   *Obligation
+		prep func() []attempt
 	}
 	var jobs []job
+	var renderMu sync.Mutex
 	for _, ob := range obs {
 		hyp := e.st.And(ob.Hyps...)
 		if ob.Kind == ObReach {
@@ -357,20 +410,23 @@ func solveAll(e *Engine, obs []*Obligation, tier int, timeout time.Duration) {
 			}
 			roots := append([]*Term{}, ob.Hyps...)
 			ob.Size = Size(roots...)
-			var as []attempt
-			th := theoryOf(roots)
-			q := e.st.buildQuery(ob.Hyps, nil, false, nil)
-			for _, c := range solversFor(th, tier) {
-				as = append(as, attempt{cfg: c, query: q, label: th, satExact: true})
-			}
-			if th == "lia" || th == "nia" {
-				if nh, _, w, ok, _ := e.st.lowerIntToBV(ob.Hyps, nil); ok {
-					q2 := e.st.buildQuery(nh, nil, false, nil)
-					lab := fmt.Sprintf("bv%d lowered from int", w)
-					as = append(as, attempt{cfg: z3new, query: q2, label: lab, satExact: true}, attempt{cfg: cvc5c, query: q2, label: lab, satExact: true})
+			ob := ob
+			jobs = append(jobs, job{ob, func() []attempt {
+				var as []attempt
+				th := theoryOf(roots)
+				q := e.st.buildQuery(ob.Hyps, nil, false, nil)
+				for _, c := range solversFor(th, tier) {
+					as = append(as, attempt{cfg: c, query: q, label: th, satExact: true})
 				}
-			}
-			jobs = append(jobs, job{ob, as})
+				if th == "lia" || th == "nia" {
+					if nh, _, w, ok, _ := e.st.lowerIntToBV(ob.Hyps, nil); ok {
+						q2 := e.st.buildQuery(nh, nil, false, nil)
+						lab := fmt.Sprintf("bv%d lowered from int", w)
+						as = append(as, attempt{cfg: z3new, query: q2, label: lab, satExact: true}, attempt{cfg: cvc5c, query: q2, label: lab, satExact: true})
+					}
+				}
+				return as
+			}})
 			continue
 		}
 		if hyp.IsFalse() || ob.Goal.IsTrue() {
@@ -380,6 +436,13 @@ func solveAll(e *Engine, obs []*Obligation, tier int, timeout time.Duration) {
 		}
 		roots := append(append([]*Term{}, ob.Hyps...), ob.Goal)
 		ob.Size = Size(roots...)
+		if ob.Size > maxObligationNodes {
+			// term growth beyond anything a solver would finish (a change to the code under test made a value
+			// accumulate conditions): inconclusive, and not worth the memory of printing it
+			ob.Verdict = "unknown"
+			ob.Solver = fmt.Sprintf("not attempted: obligation has %d term nodes (limit %d)", ob.Size, maxObligationNodes)
+			continue
+		}
 		var msyms []*Term
 		for _, s := range Syms(roots...) {
 			if s.S.K == SBV || s.S.K == SBool || s.S.K == SInt {
@@ -388,6 +451,8 @@ func solveAll(e *Engine, obs []*Obligation, tier int, timeout time.Duration) {
 		}
 		th := theoryOf(roots)
 		ob.Theory = th
+		ob := ob
+		jobs = append(jobs, job{ob, func() []attempt {
 		var as []attempt
 		direct := e.st.buildQuery(ob.Hyps, ob.Goal, true, msyms)
 		hasBV := hasBVTerms(roots)
@@ -419,26 +484,44 @@ func solveAll(e *Engine, obs []*Obligation, tier int, timeout time.Duration) {
 				}
 			}
 		}
-		jobs = append(jobs, job{ob, as})
+		return as
+		}})
 	}
-	if d := os.Getenv("VERIF_DUMP_ATTEMPTS"); d != "" {
-		os.MkdirAll(d, 0o755)
-		for ji, j := range jobs {
-			for ai, a := range j.as {
-				if ai > 0 && a.query == j.as[ai-1].query {
-					continue
-				}
-				os.WriteFile(filepath.Join(d, fmt.Sprintf("job%03d_a%d.smt2", ji, ai)), []byte("; "+j.ob.Name+"\n; "+j.ob.Msg+"\n; "+a.label+" lift-note="+j.ob.LiftNote+"\n"+a.query+"\n; SIDE\n"+a.side), 0o644)
+	dumpDir := os.Getenv("VERIF_DUMP_ATTEMPTS")
+	if dumpDir != "" {
+		os.MkdirAll(dumpDir, 0o755)
+	}
+	if os.Getenv("VERIF_TIMES") != "" {
+		mx := 0
+		for _, j := range jobs {
+			if j.ob.Size > mx {
+				mx = j.ob.Size
 			}
 		}
+		fmt.Fprintf(os.Stderr, "SIZE largest obligation: %d term nodes\n", mx)
 	}
-	for _, j := range jobs {
+	for ji, j := range jobs {
 		wg.Add(1)
 		sem <- struct{}{}
-		go func(j job) {
+		go func(ji int, j job) {
 			defer wg.Done()
 			defer func() { <-sem }()
-			r := portfolioAttempts(j.as, timeout)
+			renderMu.Lock()
+			as := j.prep()
+			renderMu.Unlock()
+			if dumpDir != "" {
+				for ai, a := range as {
+					if ai > 0 && a.query == as[ai-1].query {
+						continue
+					}
+					os.WriteFile(filepath.Join(dumpDir, fmt.Sprintf("job%03d_a%d.smt2", ji, ai)), []byte("; "+j.ob.Name+"\n; "+j.ob.Msg+"\n; "+a.label+" lift-note="+j.ob.LiftNote+"\n"+a.query+"\n; SIDE\n"+a.side), 0o644)
+				}
+			}
+			to := timeout
+			if j.ob.Size > 20000 && to > 30*time.Second {
+				to = 30 * time.Second // far larger than any obligation of the unchanged tree: give it a short try only
+			}
+			r := portfolioAttempts(as, to)
 			mu.Lock()
 			j.ob.Verdict = r.Verdict
 			j.ob.Solver = r.Solver
@@ -461,7 +544,7 @@ func solveAll(e *Engine, obs []*Obligation, tier int, timeout time.Duration) {
 				j.ob.Msg += " [solver: " + firstLines(r.Raw, 2) + "]"
 			}
 			mu.Unlock()
-		}(j)
+		}(ji, j)
 	}
 	wg.Wait()
 }
@@ -486,7 +569,17 @@ func hasBVTerms(ts []*Term) bool {
 }
 
 // addLifted adds the integer-lifted encoding of an obligation (exact; side conditions as a second query).
+// obligations above these sizes are not sent to the solvers / not lifted to integers
+const (
+	maxObligationNodes = 60000
+	maxLiftNodes       = 60000
+)
+
 func (e *Engine) addLifted(as *[]attempt, ob *Obligation, msyms []*Term, tier int) {
+	if ob.Size > maxLiftNodes {
+		ob.LiftNote = "obligation too large for the integer lifting"
+		return
+	}
 	e.st.invPairs, e.st.invModulus = ob.InvPairs, ob.InvMod
 	nh, ng, side, ok, why := e.st.liftToInt(ob.Hyps, ob.Goal, false)
 	if !ok {
@@ -589,6 +682,7 @@ func main() {
 	if *only != "" {
 		re = regexp.MustCompile(*only)
 	}
+	startResourceWatchdog()
 	os.Exit(checkProperty(*prop, tier, *tierS, re, *cfgName, overlay, *evDir, *dump, *caseF, timeout))
 }
 
